@@ -2,7 +2,9 @@
 mod checks_c03;
 mod checks_c04;
 mod checks_c05;
+mod checks_c06;
 mod checks_c12;
+mod checks_c17;
 mod checks_e1;
 mod checks_http;
 mod crash;
@@ -12,6 +14,7 @@ mod e2;
 mod evidence;
 mod gen;
 mod http;
+mod net;
 mod ops;
 mod prng;
 mod scratch;
@@ -54,6 +57,8 @@ fn engine_shard(id: &str, tier: &str, seed: u64, replay: Option<&serde_json::Val
         "C03" => checks_c03::shard_run("C03", tier, seed, replay, shard),
         "C04" => checks_c04::shard_run(tier, seed, replay_case, shard),
         "C05" => checks_c05::shard_run(tier, seed, replay_case, shard),
+        "C06" => checks_c06::shard_run(tier, seed, replay_case, shard),
+        "C17" => checks_c17::shard_run(tier, seed, replay_case, shard),
         "C15" | "C20" => checks_http::shard_run_grammar(id, tier, seed, replay_case, shard),
         "C16" => checks_http::shard_run_c16(tier, seed, replay_case, shard),
         "C12" => {
@@ -83,6 +88,8 @@ fn engine_finalize(id: &str, tier: &str, seed: u64, out: ShardOut, is_replay: bo
         "C03" => checks_c03::finalize("C03", tier, seed, out, is_replay),
         "C04" => checks_c04::finalize(out, is_replay),
         "C05" => checks_c05::finalize(out, is_replay),
+        "C06" => checks_c06::finalize(out, is_replay),
+        "C17" => checks_c17::finalize(out, is_replay),
         "C15" | "C20" => checks_http::finalize_grammar(id, tier, out, is_replay),
         "C16" => checks_http::finalize_c16(out, is_replay),
         "C12" => {
